@@ -249,6 +249,9 @@ func ruleC11(w *World, r *Report) {
 	// the whitelist is enforced only if a rule authorises exactly the (source, dest, port)
 	// triples it names: the matching semantics of Authenticate (shared with C12)
 	k.authenticateRule("C11.whitelist.")
+	// the applications treat a relayed packet like a direct one; no partial commits in the handlers
+	k.appNoRelayRule("C11.app.norelay")
+	k.ctxRule("C11.ctx")
 	r.MinInstances("C11.", 25)
 }
 
@@ -460,7 +463,7 @@ func ruleC13(w *World, r *Report) {
 		if p := paramByType(fv.Fn, "exported.PacketI"); p != nil {
 			pk := ifacePkt(p)
 			for _, st := range returnSites(fv, "") {
-				path := fv.PathAvoidingX(st.Instr, nil, func(f Fact) bool {
+				isParty := func(f Fact) bool {
 					if f.Op != "==" {
 						return false
 					}
@@ -470,7 +473,9 @@ func ruleC13(w *World, r *Report) {
 						}
 					}
 					return false
-				})
+				}
+				// the test may be written in line or as a predicate helper ("involvesChain(packet, name)")
+				path := fv.PathAvoidingX(st.Instr, nil, func(f Fact) bool { return fv.edgeImplies(f, isParty) })
 				r.Check(path == nil, "C13.party/ValidatePacket", "MUST-PASS", fnShort(fv), fv.InstrPos(st.Instr),
 					"a packet is accepted only if this chain is its source, destination or relay chain",
 					"ValidatePacket accepts a packet for which this chain is neither source, destination nor relay chain: "+fv.DescribePath(path))
@@ -480,6 +485,8 @@ func ruleC13(w *World, r *Report) {
 	// handlers: accepting paths of the responsible chain run the callback
 	k.callbackMandatory("C13.dispatch", "RecvPacket", "OnRecvPacket", "GetDestChain", true)
 	k.callbackMandatory("C13.dispatch", "Acknowledgement", "OnAcknowledgementPacket", "GetSourceChain", false)
+	// the relay chain a message names decides the verifying client by one table, without fallback
+	k.fromTableRule("C13.from")
 	r.MinInstances("C13.", 10)
 }
 
